@@ -73,7 +73,7 @@ import os
 import re
 import shutil
 
-from vlib import aslrun, build, codefile, p2hexio, tlc
+from vlib import aslrun, build, codefile, p2hexfiles, p2hexio, tlc
 from vlib.common import CheckError, NCPU, Phase, log, pmap, rng, scratch, VERIF
 from vlib.report import Report
 
@@ -94,12 +94,19 @@ DEV_TEXT = {
 # ---------------------------------------------------------------------------------------------------
 # case construction
 # ---------------------------------------------------------------------------------------------------
-def mk_case(recs, o, fentry=-1, origin="gen", pbytes=None):
-    oo = copy.deepcopy(p2hexio.BASE_O)
+def mk_case(recs, o, fentry=-1, origin="gen", pbytes=None, files=None):
+    """a case of spec/P2Hex.tla: flat record list + source arguments (files) + option vector; "p" = the code files.
+    Without `files` it is one source file; the generators' o["ofs"] then is that file's "(offset)" suffix."""
+    oo = copy.deepcopy(p2hexfiles.BASE_O)
     oo.update(o)
-    if pbytes is None:
-        pbytes = codefile.write(recs, entry=None if fentry == -1 else fentry)
-    return {"recs": recs, "o": oo, "fentry": fentry, "origin": origin, "p": pbytes}
+    ofs = oo.pop("ofs", 0)
+    if files is None:
+        files = [p2hexfiles.file_descr(len(recs), sfx=ofs != 0, ofs=ofs, nota="$", fentry=fentry)]
+        ps = [pbytes] if pbytes is not None else p2hexfiles.write_files(recs, files)
+    else:
+        assert not ofs and pbytes is None
+        ps = p2hexfiles.write_files(recs, files)
+    return {"recs": recs, "files": files, "o": oo, "origin": origin, "p": ps}
 
 
 FAMILIES = [  # (cpu, gran, default format) - a spread over the family table
@@ -113,6 +120,57 @@ BOUNDS = [0x0, 0x100, 0x7ff0, 0xfff0, 0xffe0, 0xffff0, 0xfffe0, 0xfffff0, 0xffff
 
 
 def random_case(r, idx):
+    return mk_case(*random_parts(r), origin="random/%d" % idx)
+
+
+OFFSETS = [0x10, 0x100, 0x1000, 0x1000, 0x10000, 0x20000]
+
+
+def files_case(r, idx):
+    """SEVERAL source files in one call: the records of a random case dealt to 2-3 files in command-line order, every
+    file named without "(offset)", with "(0)" or with a moving offset (any notation); window / -a / -R as drawn"""
+    recs, o, fentry = random_parts(r)
+    o.pop("ofs", None)
+    if len(recs) == 1:
+        x = recs[0]
+        n = r.choice([1, 3, 8, 33])
+        recs.append({"cpu": x["cpu"], "seg": x["seg"], "gran": x["gran"],
+                     "start": x["start"] + len(x["data"]) // x["gran"] + r.choice([0, 1, 0x40, 0x400]),
+                     "data": [r.randrange(256) for _ in range(n * x["gran"])]})
+        if r.random() < 0.5:
+            recs.reverse()
+    nf = min(len(recs), r.choice([2, 2, 2, 3]))
+    cuts = [0] + sorted(r.sample(range(1, len(recs)), nf - 1)) + [len(recs)]
+    files = []
+    for i in range(nf):
+        kind = r.choice(["none", "none", "zero", "ofs", "ofs"])
+        ofs = 0 if kind != "ofs" else r.choice(OFFSETS + [r.randrange(1, 0x3000)])
+        fe = fentry if i == 0 else (-1 if r.random() < 0.85 else r.choice([fentry, r.randrange(0, 0x10000)]))
+        files.append(p2hexfiles.file_descr(cuts[i + 1] - cuts[i], sfx=kind != "none", ofs=ofs,
+                                           nota=r.choice(p2hexfiles.NOTATIONS), fentry=fe))
+    if all(f["sfx"] for f in files) or not any(f["ofs"] for f in files):
+        # the interesting mixtures: at least one name without and one name with a moving offset
+        i, j = r.sample(range(nf), 2)
+        files[i] = p2hexfiles.file_descr(files[i]["n"], fentry=files[i]["fentry"])
+        files[j] = p2hexfiles.file_descr(files[j]["n"], sfx=True, ofs=r.choice(OFFSETS), nota=r.choice(p2hexfiles.NOTATIONS),
+                                         fentry=files[j]["fentry"])
+    if r.random() < 0.5:
+        # a window over the MOVED records (the drawn one was placed over the unmoved ones)
+        k, ext = 0, []
+        for f in files:
+            ext += [(x["start"] + f["ofs"], x["start"] + f["ofs"] + len(x["data"]) // x["gran"] - 1) for x in recs[k:k + f["n"]]]
+            k += f["n"]
+        lo, hi = min(a for a, _ in ext), max(b for _, b in ext)
+        o.pop("rstart", None), o.pop("rstop", None)
+        w = r.choice(["auto", "auto", "all", "inner", "lo$", "$hi"])
+        if w in ("all", "inner", "lo$"):
+            o["rstart"] = lo if w == "all" else r.randrange(lo, hi + 1)
+        if w in ("all", "inner", "$hi"):
+            o["rstop"] = hi if w == "all" else r.randrange(o.get("rstart", lo), hi + 1)
+    return mk_case(recs, o, origin="files/%d" % idx, files=files)
+
+
+def random_parts(r):
     cpu, gran, dfl = r.choice(FAMILIES)
     nrec = r.choice([1, 1, 2, 2, 3, 4])
     recs = []
@@ -173,7 +231,7 @@ def random_case(r, idx):
         o["filt"] = sorted(set(r.sample([x["cpu"] for x in recs], 1) + ([0x7e] if r.random() < 0.3 else [])))
     if r.random() < 0.1:
         o["ofs"] = r.choice([0x10, 0x1000, 0x20000])
-    return mk_case(recs, o, fentry, origin="random/%d" % idx)
+    return recs, o, fentry
 
 
 BOUNDARIES = [0x10000, 0x20000, 0x100000, 0x1000000, 0x8000, 0x80000, 0x30000]
@@ -284,7 +342,7 @@ def judge_with_tlc(cases, results, shards):
     """cases[i] + results[i] -> verdict dict printed by P2Hex_Trace (by id)"""
     docs = []
     for i, (c, res) in enumerate(zip(cases, results)):
-        docs.append({"id": i, "recs": c["recs"], "fentry": c["fentry"], "o": c["o"], "rc": res["rc"],
+        docs.append({"id": i, "recs": c["recs"], "files": c["files"], "o": c["o"], "rc": res["rc"],
                      "lines": res["lines"]})
     # balance shards by size
     docs_sorted = sorted(docs, key=lambda d: -sum(len(x["data"]) for x in d["recs"]))
@@ -335,8 +393,10 @@ def judge_with_tlc(cases, results, shards):
 
 
 def case_files(c, res):
-    return {"x.p": c["p"], "cmdline.json": json.dumps(res["cmd"]), "o.hex": res["text"] or "",
-            "stderr.txt": res["err"], "case.json": json.dumps({k: c[k] for k in ("o", "fentry", "origin")})}
+    out = {"cmdline.json": json.dumps(res["cmd"]), "o.hex": res["text"] or "",
+           "stderr.txt": res["err"], "case.json": json.dumps({k: c[k] for k in ("o", "files", "origin")})}
+    out.update(zip(p2hexfiles.src_names(c["files"]), c["p"]))
+    return out
 
 
 def report_case(rep, bld, c, res, v, state):
@@ -405,7 +465,7 @@ def report_case(rep, bld, c, res, v, state):
         state["attributed"] += 1
         return
     # not explained by any named deviation: confirm by a second run, then report
-    again = p2hexio.run_p2hex(bld.tool("p2hex"), bld.env(), c["p"], c["o"])
+    again = p2hexfiles.run_p2hex(bld.tool("p2hex"), bld.env(), c["p"], c["files"], c["o"])
     if again["text"] != res["text"]:
         raise CheckError("p2hex output not reproducible for %s" % " ".join(res["cmd"]))
     rep.violation(what, case={"o": c["o"], "origin": c["origin"], "tlc": v}, files=case_files(c, res),
@@ -421,7 +481,7 @@ def main(tier):
         "tokenisers (hex digit pairs -> integers), the code-file writer and gcc -fsyntax-only are trusted; every sum, "
         "count, address computation and comparison is made by TLC on spec/P2Hex.tla",
         "TI-DSK and Mico8: structural modelling only (not in the property's format list)",
-        "addresses < 2^30; one source file per call; little-endian host",
+        "addresses < 2^30; 1-3 source files per call, no wildcards; little-endian host",
         "Tektronix definition (hex-digit sums) as in Data I/O format 86 / srecord; MOS terminator = record count (KIM-1)",
     ]
     workers = min(NCPU, 6)
@@ -466,13 +526,13 @@ def main(tier):
                  distinct_states=pf.distinct)
     # sensitivity of the case space to per-group state that leaks from one record group into the next
     with Phase("P2Hex_MC carry-over sensitivity"):
-        for cfg in ("P2Hex_MCcarryFirstBank.cfg", "P2Hex_MCcarryRecCnt.cfg"):
+        for cfg in ("P2Hex_MCcarryFirstBank.cfg", "P2Hex_MCcarryRecCnt.cfg", "P2Hex_MCcarryOffset.cfg"):
             sr = tlc.run("P2Hex_MC", cfg, workers=2, timeout=900, collect=False)
             if sr.error:
                 raise CheckError("%s: %s" % (cfg, sr.error))
             if not sr.violation:
-                raise CheckError("%s: the case space does not expose a group prologue that forgets to re-initialise "
-                                 "this variable (the model check found no violation)" % cfg)
+                raise CheckError("%s: the case space does not expose a group prologue / an argument handler that forgets "
+                                 "to re-initialise this variable (the model check found no violation)" % cfg)
             rep.part("P2Hex_MC(%s, InvVerdict expected to fail)" % cfg, exposed=True, distinct_states=sr.distinct)
 
     seen = set()
@@ -482,21 +542,24 @@ def main(tier):
         if k in seen:
             continue
         seen.add(k)
-        cases.append(mk_case(cj["recs"], cj["o"], cj["fentry"], origin="tlc"))
+        cases.append(mk_case(cj["recs"], cj["o"], origin="tlc", files=cj["files"]))
     ngen = len(cases)
     r = rng("c06")
     nrand = 1200 if quick else 20000
     cases += [random_case(rng("c06/r%d" % i), i) for i in range(nrand)]
     nbound = 800 if quick else 12000
     cases += [boundary_case(rng("c06/b%d" % i), i) for i in range(nbound)]
+    nfiles = 500 if quick else 8000
+    cases += [files_case(rng("c06/f%d" % i), i) for i in range(nfiles)]
     cases += special_cases()
     with Phase("corpus code files"):
         cc = corpus_cases(bld, r, tier)
     cases += cc
-    rep.part("cases", tlc_generated=ngen, seeded_random=nrand, seeded_boundary=nbound, corpus=len(cc), special=len(special_cases()))
+    rep.part("cases", tlc_generated=ngen, seeded_random=nrand, seeded_boundary=nbound, seeded_files=nfiles,
+             several_files=sum(1 for c in cases if len(c["files"]) > 1), corpus=len(cc), special=len(special_cases()))
 
     with Phase("run p2hex on %d cases" % len(cases)):
-        results = p2hexio.run_many(bld, [(c["p"], c["o"]) for c in cases], workers=min(NCPU, 12))
+        results = p2hexfiles.run_many(bld, [(c["p"], c["files"], c["o"]) for c in cases], workers=min(NCPU, 12))
     with Phase("TLC judgement (P2Hex_Trace)"):
         verdicts, st = judge_with_tlc(cases, results, shards=min(NCPU, 6 if quick else 10))
     rep.cov["states"] += st["states"]
@@ -524,7 +587,8 @@ def main(tier):
             fmt = v["v"]["fmt"]
             per_fmt[fmt] = per_fmt.get(fmt, 0) + 1
             rep.distinct((fmt, json.dumps(c["o"], sort_keys=True),
-                          tuple((x["start"], len(x["data"]), x["gran"]) for x in c["recs"])),
+                          tuple((x["start"], len(x["data"]), x["gran"]) for x in c["recs"]),
+                          tuple((f["n"], f["sfx"], f["ofs"]) for f in c["files"])),
                          nontrivial=v["v"]["nlines"] > 2)
     for t in tlc_errors[:10]:
         log("CHECK-ERROR property=%s TLC could not evaluate a case: %s" % (PID, t))
@@ -538,9 +602,11 @@ def main(tier):
                                                                            "nsel", "nlines")}, "model": v.get("model")})
     rc = rep.finish(
         rule="cases = every case of the TLC case space of P2Hex_Gen (records at/around 0, 64 KiB, 1 MiB, 16 MiB x "
-             "formats x option vectors) + seeded random multi-record cases + golden-corpus .p files x formats + "
+             "formats x option vectors; 2 source files x name / name(0) / name(offset) x window walks) + seeded random "
+             "multi-record and several-file cases + golden-corpus .p files x formats + "
              "hand-placed long-record cases; each converted by the real p2hex and judged by TLC (P2Hex_Trace); "
-             "distinct = (format, option vector, record layout); non-trivial = more than 2 output lines",
+             "distinct = (format, option vector, record layout, source arguments); non-trivial = more than 2 "
+             "output lines",
         exhaustive=False)
     return rc if rc or not tlc_errors else 2
 
@@ -548,13 +614,20 @@ def main(tier):
 def replay(path):
     v = json.load(open(os.path.join(path, "violation.json")))
     bld = build.get("hook")
-    pb = open(os.path.join(path, "x.p"), "rb").read()
     cj = json.load(open(os.path.join(path, "case.json")))
-    pr, recs, fentry = p2hexio.records_of(pb)
-    res = p2hexio.run_p2hex(bld.tool("p2hex"), bld.env(), pb, cj["o"])
+    o = dict(cj["o"])
+    ofs = o.pop("ofs", 0)                      # replays recorded before the source arguments became a list
+    files = cj.get("files") or [p2hexfiles.file_descr(0, sfx=ofs != 0, ofs=ofs)]
+    ps = [open(os.path.join(path, n), "rb").read() for n in p2hexfiles.src_names(files)]
+    recs = []
+    for f, pb in zip(files, ps):               # the stored code files are the input: counts and entries from them
+        pr, rs, fentry = p2hexio.records_of(pb)
+        f["n"], f["fentry"] = len(rs), fentry
+        recs += rs
+    res = p2hexfiles.run_p2hex(bld.tool("p2hex"), bld.env(), ps, files, o)
     log("p2hex %s -> rc=%s" % (" ".join(res["cmd"]), res["rc"]))
     log((res["text"] or "")[:2000])
-    c = {"recs": recs, "o": cj["o"], "fentry": fentry, "origin": "replay", "p": pb}
+    c = {"recs": recs, "files": files, "o": o, "origin": "replay", "p": ps}
     verdicts, _ = judge_with_tlc([c], [res], 1)
     log("TLC verdict: %s" % json.dumps(verdicts[0], sort_keys=True))
     log("recorded: %s" % v["what"])
@@ -574,7 +647,7 @@ def selftest(tier):
         start = 0x7f00 if fmt == "INTEL" else 0xfff0        # Intel-8 cannot carry addresses above $FFFF
         base.append(mk_case([{"cpu": cpu, "seg": 1, "gran": gran, "start": start, "data": big}], {"fmt": fmt},
                             fentry=0x1234, origin="selftest/" + fmt))
-    results = p2hexio.run_many(bld, [(c["p"], c["o"]) for c in base], workers=4)
+    results = p2hexfiles.run_many(bld, [(c["p"], c["files"], c["o"]) for c in base], workers=4)
     cases, res2, names = [], [], []
     for c, r in zip(base, results):
         cases.append(c); res2.append(r); names.append(c["origin"] + " unmodified")
